@@ -1,6 +1,9 @@
 import argparse, importlib, os, sys, subprocess, time, traceback
 sys.path.insert(0, os.path.dirname(os.path.abspath(__file__)))
 import vf
+import logging
+logging.lastResort = None
+logging.getLogger().addHandler(logging.NullHandler())
 
 
 def setup():
